@@ -34,7 +34,7 @@ pub struct S3a;
 fn phase_name(k: usize, i: usize) -> &'static str {
     if i < k {
         "phase_fill"
-    } else if i < 4 * k {
+    } else if i < k.saturating_mul(4) {
         "phase_reservoir"
     } else {
         "phase_gap"
@@ -52,10 +52,13 @@ impl Scenario for S3a {
             0..=599 => g.range(1, 8) as usize,
             600..=899 => g.range(9, 64) as usize,
             900..=989 => *g.pick(&[100usize, 128, 1000]),
-            990..=998 => 1000,
+            990..=997 => 1000,
+            998 => *g.pick(&[usize::MAX, usize::MAX / 4 + 1, usize::MAX / 4, 1usize << 62]), // "any k >= 1"
             _ => 100_000,
         };
-        let n = if k >= 100_000 {
+        let n = if k > 1_000_000 {
+            g.range(1, 60) as usize
+        } else if k >= 100_000 {
             k + g.range(0, 500) as usize
         } else {
             match g.below(10) {
@@ -140,10 +143,10 @@ impl Scenario for S3a {
                 i += 1;
                 stats.steps += 1;
                 let words = probe.pos() - p0;
-                if i == k || i == k + 1 {
+                if i == k || i == k.saturating_add(1) {
                     stats.probe("boundary_fill_to_reservoir");
                 }
-                if i == 4 * k || i == 4 * k + 1 {
+                if i == k.saturating_mul(4) || i == k.saturating_mul(4).saturating_add(1) {
                     stats.probe("boundary_reservoir_to_gap");
                 }
                 if t + 1 == case.n || i % 64 == 0 {
